@@ -401,6 +401,22 @@ func (ex *Exec) harnessIntrinsic(f *ssa.Function) intrinsic {
 			}
 			return ex.i64(int64(v))
 		}
+	case "vAnd":
+		return func(ex *Exec, st *State, args []Value, site ssa.CallInstruction) Value {
+			return c.And(args[0].(*Term), args[1].(*Term))
+		}
+	case "vOr":
+		return func(ex *Exec, st *State, args []Value, site ssa.CallInstruction) Value {
+			return c.Or(args[0].(*Term), args[1].(*Term))
+		}
+	case "vNot":
+		return func(ex *Exec, st *State, args []Value, site ssa.CallInstruction) Value {
+			return c.Not(args[0].(*Term))
+		}
+	case "vIte":
+		return func(ex *Exec, st *State, args []Value, site ssa.CallInstruction) Value {
+			return c.Ite(args[0].(*Term), args[1].(*Term), args[2].(*Term))
+		}
 	case "vSymbolic":
 		return func(ex *Exec, st *State, args []Value, site ssa.CallInstruction) Value {
 			return c.True
